@@ -1,5 +1,5 @@
-(* Extraction of the C01 model (evaluator of the typed fragment).  Directives used: ExtrOcamlBasic and
+(* Extraction of the C01 model (evaluator of the typed fragment, derivation checker).  Directives used: ExtrOcamlBasic and
    ExtrOcamlNativeString only; nat, Z, positive and Q stay the inductive datatypes. *)
 From Coq Require Import Extraction ExtrOcamlBasic ExtrOcamlNativeString.
-From NV Require Import Types.Syntax Types.Sem.
-Extraction "c01_model.ml" run eval force.
+From NV Require Import Types.Syntax Types.Sem Types.Decl Types.ModelSig Types.Checker.
+Extraction "c01_model.ml" run eval force check_deriv erase model_sig.
